@@ -258,7 +258,9 @@ func (e *Explorer) CheckDeterminism(choices []int) error {
 	for k := 0; k < 2; k++ {
 		r := e.runOnce(choices, -1, false, false)
 		e.Stats.Replays++
-		sig[k] = fmt.Sprintf("%s|%s|%s|%d|%v", r.Status, r.Clause, r.Outcome, r.Steps, pointShape(&r))
+		// (the step count is not part of the signature: it also counts hand-overs made while the threads of
+		// a finished execution are unwound, which vary with how far each had got - seen once under load)
+		sig[k] = fmt.Sprintf("%s|%s|%s|%v", r.Status, r.Clause, r.Outcome, pointShape(&r))
 	}
 	if sig[0] != sig[1] {
 		return fmt.Errorf("nondeterministic replay:\n  %s\n  %s", sig[0], sig[1])
